@@ -74,6 +74,15 @@ def rowcount_rule(ctx, rule, only_modules=None):
                                     and 'num_rows' in src(sx.value):
                                 before = True
             ok = after or before
+            for x in nr:
+                sx = cfg.nodes[x].stmt
+                if isinstance(sx, ast.Assign) and cfg.exists_path(n0, x):
+                    gens = [g for g in ast.walk(sx.value) if isinstance(g, ast.comprehension)]
+                    if gens:
+                        over = norm(gens[0].iter)
+                        same = over in (norm(st.value), base + '.row_groups')
+                        ctx.ob(rule, '%s.%s:%s.num_rows-summed-over-the-stored-row-groups' % (m.name, q, base), same,
+                               'num_rows is recomputed over `%s` but the list stored is `%s`' % (over, norm(st.value)), m.loc(sx))
             ctx.ob(rule, '%s.%s:%s.row_groups-store-followed-by-num_rows-update:%s' % (
                 m.name, q, base, norm(st.value)[:40]), ok,
                 'after `%s` every path to a normal exit must recompute %s.num_rows (the footer is '
